@@ -213,6 +213,8 @@ class Interp:
     def is_cache(self, o):
         """a shared dictionary that some function writes (a cache), not a constant table"""
         w = o.origin[1] if o.origin[0] == "shared" else ""
+        if o.meta.get("empty_init"):
+            return True
         return w.startswith("module:") and w[len("module:"):] in self.prog.written_globals() or w.startswith(("default argument", "cache decorator"))
 
     def can_fork(self):
@@ -410,6 +412,15 @@ class Interp:
             if self.in_weak(fr):
                 raise _MaybeExit()
             raise _Raise("AssertionError", st)
+        # `assert x is not None` narrows a joined value: the None alternative does not survive the statement
+        c = st.test
+        if isinstance(c, ast.Compare) and len(c.ops) == 1 and isinstance(c.ops[0], ast.IsNot) and isinstance(c.left, ast.Name) \
+                and isinstance(c.comparators[0], ast.Constant) and c.comparators[0].value is None and c.left.id in fr.env:
+            v = fr.env[c.left.id]
+            if isinstance(v, Alt):
+                rest = [x for x in v.vals if not (isinstance(x, Const) and x.v is None)]
+                if rest and len(rest) < len(v.vals):
+                    fr.env[c.left.id] = rest[0] if len(rest) == 1 else Alt(rest)
 
     def st_Break(self, st, fr):
         raise _Break()
@@ -458,11 +469,16 @@ class Interp:
                     self.assign(sub, Sym("field", recv, *sargs, Const(i), Const(len(t.elts)), prov=recv.prov), fr, st)
                 elif o is not None:
                     self.assign(sub, o.elem if o.elem is not None else Sym("elem", v), fr, st)
+                elif isinstance(v, Alt):
+                    self.assign(sub, self.getitem(v, Const(i), st, fr), fr, st)
                 else:
                     self.assign(sub, self.derive("item", v, Const(i)), fr, st)
         elif isinstance(t, ast.Attribute):
             base = self.eval(t.value, fr)
             o = self.obj(base)
+            if o is not None and o.kind == "record" and o.cls is not None and self.prog.find_property(o.cls, t.attr, setter=True) is not None:
+                self.call_function(self.prog.find_property(o.cls, t.attr, setter=True), [base, v], {}, st)
+                return
             if o is not None:
                 init_self = fr.func is not None and fr.func.name == "__init__" and isinstance(t.value, ast.Name) and \
                     fr.func.params and t.value.id == fr.func.params[0]
@@ -502,6 +518,41 @@ class Interp:
             self.assign(t.value, v, fr, st)
         else:
             raise Unsupported(f"assignment target {type(t).__name__} at {pyfacts.where(fr.func, st)}")
+
+    def st_Match(self, st, fr):
+        """match on constants / alternatives of constants / wildcard, desugared into the equivalent if-chain"""
+        subj = st.subject
+        if not isinstance(subj, (ast.Name, ast.Attribute, ast.Constant)):
+            raise Unsupported(f"match on a compound subject at {pyfacts.where(fr.func, st)}")
+
+        def test_of(p):
+            if isinstance(p, ast.MatchValue):
+                return ast.Compare(left=subj, ops=[ast.Eq()], comparators=[p.value])
+            if isinstance(p, ast.MatchSingleton):
+                return ast.Compare(left=subj, ops=[ast.Is()], comparators=[ast.Constant(p.value)])
+            if isinstance(p, ast.MatchOr):
+                return ast.BoolOp(op=ast.Or(), values=[test_of(q) for q in p.patterns])
+            if isinstance(p, ast.MatchAs) and p.pattern is None:
+                return ast.Constant(True)
+            raise Unsupported(f"match pattern {type(p).__name__} at {pyfacts.where(fr.func, st)}")
+
+        chain = None
+        for case in reversed(st.cases):
+            t = test_of(case.pattern)
+            body = list(case.body)
+            if isinstance(case.pattern, ast.MatchAs) and case.pattern.pattern is None and case.pattern.name:
+                body = [ast.Assign(targets=[ast.Name(id=case.pattern.name, ctx=ast.Store())], value=subj)] + body
+            if case.guard is not None:
+                t = ast.BoolOp(op=ast.And(), values=[t, case.guard])
+            node = ast.If(test=t, body=body, orelse=[chain] if chain is not None else [])
+            chain = node
+        if chain is None:
+            return
+        for n in ast.walk(chain):
+            if not hasattr(n, "lineno"):
+                ast.copy_location(n, st)
+        ast.fix_missing_locations(chain)
+        self.st_If(chain, fr)
 
     def st_If(self, st, fr):
         cond = self.eval(st.test, fr)
@@ -771,6 +822,9 @@ class Interp:
                     self.loop_depth, self.maybe = saved
                     self.stack.pop()
                 self.mark_shared(v, f"module:{mod.name}.{name}")
+                vo = self.obj(v)
+                if vo is not None and vo.kind == "dict" and not vo.meta.get("stores"):
+                    vo.meta["empty_init"] = True      # a module-level dictionary created empty is there to be filled: a cache
                 self.module_vars[key] = v
             return self.module_vars[key]
         raise Unsupported(f"global kind {k}")
@@ -793,6 +847,8 @@ class Interp:
         if isinstance(base, ExtV):
             return ExtV(base.dotted + "." + attr)
         if isinstance(base, ClassV):
+            if attr == "__new__":
+                return Bound(base, "__new__")
             meth = self.prog.find_method(base.cls, attr)
             if meth:
                 return FuncV(meth) if (meth.is_static) else Bound(base, attr, meth)
@@ -816,6 +872,10 @@ class Interp:
                     return Sym("attr", self.sym_of(base), attr)
                 return Bound(base, attr)
             if o.kind == "record":
+                if o.cls is not None and attr not in o.fields:
+                    pg = self.prog.find_property(o.cls, attr)
+                    if pg is not None:
+                        return self.call_function(pg, [base], {}, e)      # property: the getter runs
                 if attr in o.fields:
                     return self.refine(o.fields[attr])
                 if o.cls is not None:
@@ -1040,7 +1100,9 @@ class Interp:
             if r is None:
                 s = a if not (isinstance(a, Const) and a.v is None) else b
                 if isinstance(s, Sym) and s.maybe_none:
-                    if self.can_fork():
+                    if ("isnone", vkey(s)) in self.decisions:
+                        r = self.decisions[("isnone", vkey(s))]      # decided earlier on this path (also inside loops)
+                    elif self.can_fork():
                         r = self.decide(("isnone", vkey(s)))
                     else:
                         return Sym("isnot" if neg else "is", a, b)
